@@ -205,6 +205,9 @@ def rule_progress(ctx):
     ctx.check(ok, "C08.PROGRESS", f.short + "[threshold disabled]", "an incomplete message leaves the loop (waits for more data) without calling the consumer", "with the threshold disabled there is no path that leaves the loop when no complete message is available", fi=f, text="no-break-path")
 
 
+# per-device policy independence; upload constructor and size coercion
+IMPORTS = [('C05', 'C05.KEY'), ('C06', 'C06.CTOR'), ('C06', 'C06.COERCE')]
+
 RULES = [
     ("C08.CODEC", rule_codec, "matching base64 pair; producers send base64+size+format of one value; consumers decode once and keep that object"),
     ("C08.NULL", rule_null, "empty/absent payload never reaches b64decode as None"),
